@@ -10,7 +10,7 @@
      Inv            the invariant of C07 (see Properties_C07.v)                                                  *)
 From Coq Require Import Permutation.
 From RtrV Require Import Base.CSem Gen.Generated Rtr.RtrModel Rtr.SyncSets Rtr.ExpiryFrames Rtr.ExpirySync
-  Rtr.ConvergeStutter Rtr.ExpiryProofs Rtr.CacheSpec Rtr.ConvergeRecv Rtr.ConvergeProofs Rtr.RefreshInv Rtr.ConvergeLoop.
+  Rtr.ConvergeStutter Rtr.ExpiryProofs Rtr.CacheSpec Rtr.ConvergeRecv Rtr.ConvergeProofs Rtr.RefreshInv Rtr.ConvergeLoop Rtr.Snapshot.
 Local Open Scope Z_scope.
 
 (* (1) safety, all environments: an iteration of the state machine that ends with the clock where it was has
@@ -136,8 +136,8 @@ Proof. split; [exact reach_sync|]. split; [exact established_quiet|exact sync_qu
    synchronised after at most 8 iterations and loop_bound of protocol time: ESTABLISHED waits out the refresh timer, polls, is
    answered (delta, or Cache Reset + reload); SYNC with a lost query times out after 60 s, sleeps retry_iv, reconnects (purging if
    the data has expired), asks again, is answered; every error / reconnect state reaches SYNC in <= 3 iterations.
-   snapshot_hyp stays a hypothesis (what the client holds for a serial the cache remembers is the cache's set at that serial):
-   it is C03's conclusion about completed responses, not re-proved over fault prefixes here - the one part of C08 still open. *)
+   snapshot_hyp (what the client holds for a serial the cache remembers is the cache's set at that serial) is a hypothesis of
+   C08_converge; (6) below proves it for every world reachable through a run whose COMPLETED responses were truthful. *)
 Theorem C08_converge : forall (c : cache) (f : nat) (w : world) (silence : Z),
   cache_ok c -> Inv w -> live w -> version (sk w) = c_ver c -> snapshot_hyp c w ->
   (List.length (c_data c) < f)%nat -> (forall k old, In (k, old) (c_hist c) -> (List.length (delta_pdus old (c_data c)) < f)%nat) ->
@@ -171,6 +171,63 @@ Proof. exact C08_converge_full_holds. Qed.
 (* the hypotheses are satisfiable and the witness runs: ESTABLISHED with data, the cache has moved on (non-vacuous snapshot_hyp) *)
 Example C08_converge_example := converge_loop_example_established.
 
+(* (6) The snapshot property (Rtr/Snapshot.v).  H : session -> serial -> prefix set -> key set -> Prop is what the cache has ever
+   published (any relation; functional up to order where stated).
+     Snap H w                  req_sess = false -> the client's own records are, up to order, a published version at its (session, serial)
+     truthful_response H w ..  the response the client completed in w names a published version (P', K') at (End of Data session,
+                               serial) and: Reset Query pending -> the announced sets are (P', K'); else -> its delta applied to any
+                               arrangement of any published version at the client's (session, serial) gives (P', K')
+     truthful_run H n fuel w   in each of the first n iterations, IF rtr_sync succeeds, the response it received was truthful
+                               (nothing is asked of responses that fail, are cut, malformed, foreign, or never complete)
+   C08_snapshot: from rtr_init, through ANY environment script (faults of every kind), Snap holds after every iteration.
+   The wire-level truthful cache of Rtr/CacheSpec.v satisfies truthful_response (C08_answer_truthful_reset / _delta). *)
+Theorem C08_snapshot : forall (H : pub) n fuel refresh expire retry mode P K0 es os ss o,
+  init_ok refresh expire retry = true -> Forall ev_ok es -> NoDup P -> NoDup K0 -> own_p P = [] -> own_k K0 = [] ->
+  let w0 := start_world refresh expire retry mode P K0 es os ss o in
+  truthful_run H n fuel w0 -> Snap H (run_fsm n fuel w0).
+Proof. exact snapshot_from_init. Qed.
+
+Theorem C08_snapshot_step : forall (H : pub) fuel w, Inv w -> Snap H w -> truthful_step H fuel w -> Snap H (fst (fsm_iter fuel w)).
+Proof. exact fsm_iter_Snap. Qed.
+
+Theorem C08_snapshot_gives_hyp : forall (H : pub) c w, Snap H w ->
+  (forall n old, lookup n (c_hist c) = Some old -> H (c_session c) n (precs old) (krecs old)) -> pub_functional H -> snapshot_hyp c w.
+Proof. exact Snap_snapshot_hyp. Qed.
+
+Theorem C08_answer_truthful_reset : forall (H : pub) c w, cache_ok c -> req_sess (sk w) = true ->
+  H (c_session c) (c_serial c) (precs (c_data c)) (krecs (c_data c)) ->
+  truthful_response H w (cache_response_pdu c) (eod_pdu c) (filter is_v4 (c_data c)) (filter is_v6 (c_data c)) (filter is_key (c_data c)).
+Proof. exact answer_truthful_reset. Qed.
+
+Theorem C08_answer_truthful_delta : forall (H : pub) c w old, cache_ok c -> pub_functional H -> req_sess (sk w) = false ->
+  session_id (sk w) = c_session c -> lookup (serial (sk w)) (c_hist c) = Some old ->
+  H (c_session c) (serial (sk w)) (precs old) (krecs old) -> H (c_session c) (c_serial c) (precs (c_data c)) (krecs (c_data c)) ->
+  let ds := delta_pdus old (c_data c) in
+  truthful_response H w (cache_response_pdu c) (eod_pdu c) (filter is_v4 ds) (filter is_v6 ds) (filter is_key ds).
+Proof. exact answer_truthful_delta. Qed.
+
+(* (7) C08 in full: after ANY finite run of faults from rtr_init (n iterations under any script) in which the responses the
+   client completed were truthful w.r.t. what the cache published, with the cache's remembered history among the published
+   versions: once the transport works and the cache answers truthfully, the client is ESTABLISHED with exactly the cache's current
+   data, session and serial after at most 8 iterations and max (refresh_iv, 60 + retry_iv) seconds; other sources untouched.
+   No hypothesis about the client's state is left. *)
+Theorem C08_converge_after_any_faults : forall (H : pub) (c : cache) (f : nat) (silence : Z) n fuel refresh expire retry mode P K0 es os ss o,
+  init_ok refresh expire retry = true -> Forall ev_ok es -> NoDup P -> NoDup K0 -> own_p P = [] -> own_k K0 = [] ->
+  let w0 := start_world refresh expire retry mode P K0 es os ss o in let w := run_fsm n fuel w0 in
+  truthful_run H n fuel w0 ->
+  (forall k old, lookup k (c_hist c) = Some old -> H (c_session c) k (precs old) (krecs old)) -> pub_functional H ->
+  cache_ok c -> live w -> version (sk w) = c_ver c ->
+  (List.length (c_data c) < f)%nat -> (forall k old, In (k, old) (c_hist c) -> (List.length (delta_pdus old (c_data c)) < f)%nat) ->
+  (forall k, nth k (opens w) true = true) -> (1 <= List.length (opens w))%nat -> sends w = [] ->
+  evs w = [EvWait silence] -> loop_bound (sk w) < silence ->
+  exists m, (m <= 8)%nat /\ converged c (loop_bound (sk w)) w (run_with_cache m (S f) c w).
+Proof. exact C08_converge_no_snapshot_hyp. Qed.
+
+(* non-vacuity: a run with a Reset Query answered, the refresh timer, a Serial Query answered by a delta: truthful_run holds, both
+   synchronisations succeed, Snap holds with req_sess = false at both serials (Rtr/Snapshot.v, by evaluation) *)
+Example C08_snapshot_example := snapshot_example_delta.
+Example C08_converge_after_any_faults_example := converge_no_snapshot_hyp_example.
+
 Print Assumptions C08_no_stutter.
 Print Assumptions C08_no_stutter_iter.
 Print Assumptions C08_zero_time_bounded.
@@ -185,3 +242,7 @@ Print Assumptions C08_converge.
 Print Assumptions C08_converge_reachable.
 Print Assumptions C08_converge_full_refuted.
 Print Assumptions C08_converge_full_repaired_holds.
+Print Assumptions C08_snapshot.
+Print Assumptions C08_snapshot_gives_hyp.
+Print Assumptions C08_answer_truthful_delta.
+Print Assumptions C08_converge_after_any_faults.
